@@ -754,5 +754,8 @@ def stale_case(out, rng):
 
 
 def replay(f):
-    ctx = core.Ctx(ID, "quick", 0)
-    return oracle(ctx, False)
+    """re-run the oracle sweep (same seed as the quick tier) and keep the failures of the recorded family only"""
+    ctx = core.Ctx(ID, "quick", int(os.environ.get("VERIF_SEED", "0") or 0))
+    out = oracle(ctx, True)
+    out.failures = [x for x in out.failures if x["family"] == f["family"]]
+    return out
